@@ -514,6 +514,23 @@ func c15BatchWorld(rc *RunCtx) {
 				} else {
 					w.appendTo(tf, data)
 				}
+			case k == 6 && t.WBool(1, 2):
+				// life around the followed file: a sibling in the same directory whose name contains the followed name is
+				// created, written and removed (a rotated copy, an editor's backup). None of it is about the followed file
+				sib := []string{"x" + tf.path, tf.path + ".1", "old-" + tf.path, tf.path + "~"}[t.W(4)]
+				if _, err := os.Lstat(sib); err != nil {
+					if err := os.WriteFile(sib, []byte("not the followed file\n"), 0o644); err != nil {
+						panic(err)
+					}
+					w.opf("%s: a sibling file is created and written", sib)
+					fsnotify.SimNotify(sib, fsnotify.Create)
+					fsnotify.SimNotify(sib, fsnotify.Write)
+				} else {
+					os.Remove(sib)
+					w.opf("%s: the sibling file is removed", sib)
+					fsnotify.SimNotify(sib, fsnotify.Remove)
+				}
+				rc.Fired["sibling-file-event"]++
 			case k <= 6:
 				// (multiples of the 250ms poll period put the writer and the poller at the same fake instant, where the scheduler
 				// decides who goes first, between any two of the poller's system calls)
